@@ -129,6 +129,25 @@ def set_cases(chk):
     return out
 
 
+def role_order_cases():
+    """policies that compare the whole role list, on engines with a cache, for role lists that are permutations of one
+    another or differ by a repeat (the warm runs evaluate the permuted / repeated sibling first)"""
+    out = []
+    conds = [{"==": [{"attr": "subject.roles"}, ["admin", "staff"]]}, {"!=": [{"attr": "subject.roles"}, ["staff", "admin"]]},
+             {"==": [{"attr": "subject.roles"}, ["staff"]]}, {"in": [{"attr": "subject.roles"}, [["admin", "staff"], ["x"]]]}]
+    for ci, cond in enumerate(conds):
+        for algo in polgen.ALGOS:
+            pol = {"id": "roles%d" % ci, "algorithm": algo, "rules": [
+                {"id": "exact", "effect": "permit", "actions": ["read"], "resource": {"type": "doc"}, "condition": cond},
+                {"id": "other", "effect": "deny", "actions": ["write"], "resource": {"type": "doc"}}]}
+            for roles in (["admin", "staff"], ["staff", "admin"], ["admin", "staff", "admin"], ["staff"], ["staff", "staff"], []):
+                req = {**polgen.BASE_REQ, "subject": {"id": "u1", "roles": roles, "attrs": {}}}
+                for shape in ("single", "set"):
+                    p2 = pol if shape == "single" else {"algorithm": "deny-overrides", "policies": [pol]}
+                    out.append({"fam": "role_order", "policy": p2, "req": req, "strict": False, "cache": True})
+    return out
+
+
 def random_cases(chk, n):
     rng = chk.rng
     out = []
